@@ -8,14 +8,14 @@ namespace Abra.Pratt
 -- ------------------------------------------------------------ one-step unfoldings (definitional)
 theorem parseBp_succ (fold : FoldMode) (f bp : Nat) (toks : List Tok) :
     parseBp fold (f+1) bp toks =
-    match prefixOp? fold toks with
+    match prefixOp? fold (skipNl toks) with
     | some (op, rest) =>
       match parseBp fold f op.prec rest with
       | .ok rhs r => loop fold f bp (Expr.unop op rhs) r
       | .err => .err
       | .fuel => .fuel
     | none =>
-      match parseTerm fold f toks with
+      match parseTerm fold f (skipNl toks) with
       | .ok lhs r => loop fold f bp lhs r
       | .err => .err
       | .fuel => .fuel := rfl
@@ -115,7 +115,7 @@ theorem mono_all (fold : FoldMode) : ∀ f,
       · rename_i op rest hp
         cases hsub : parseBp fold n op.prec rest <;> simp_all
       · rename_i hp
-        cases hsub : parseTerm fold n toks <;> simp_all
+        cases hsub : parseTerm fold n (skipNl toks) <;> simp_all
     · intro bp lhs toks h
       rw [loop_succ] at h
       rw [loop_succ fold (n+1), loop_succ fold n]
@@ -218,6 +218,7 @@ theorem fuel_all (fold : FoldMode) : ∀ f,
     refine ⟨?_, ?_, ?_, ?_⟩
     · intro bp toks hf
       rw [parseBp_succ]
+      have hsk := skipNl_length toks
       split
       · rename_i op rest hp
         have hl := prefixOp_length hp
@@ -229,20 +230,20 @@ theorem fuel_all (fold : FoldMode) : ∀ f,
             exact (ihL bp (Expr.unop op rhs) r (by omega)).weaken (by omega)
           | err => exact Good.err _
           | fuel => exact absurd hsub hb1
-        · intro ht; subst ht; simp [prefixOp?] at hp
+        · intro ht; subst ht; simp [prefixOp?, skipNl] at hp
       · rename_i hp
-        obtain ⟨⟨ht1, ht2⟩, ht3⟩ := ihT toks (by omega)
+        obtain ⟨⟨ht1, ht2⟩, ht3⟩ := ihT (skipNl toks) (by omega)
         constructor
-        · cases hsub : parseTerm fold n toks with
+        · cases hsub : parseTerm fold n (skipNl toks) with
           | ok lhs r =>
             have := ht2 _ _ hsub
-            by_cases hne : toks = []
+            by_cases hne : skipNl toks = []
             · rw [ht3 hne] at hsub; cases hsub
-            · have : 0 < toks.length := List.length_pos_iff.mpr hne
+            · have : 0 < (skipNl toks).length := List.length_pos_iff.mpr hne
               exact (ihL bp lhs r (by omega)).weaken (by omega)
           | err => exact Good.err _
           | fuel => exact absurd hsub ht1
-        · intro ht; rw [ht3 ht]
+        · intro ht; subst ht; rw [ht3 (by simp [skipNl])]
     · intro bp lhs toks hf
       rw [loop_succ]
       split
